@@ -202,6 +202,7 @@ func (env *Env) eval(x Expr) (*Val, error) {
 	case *EOld:
 		n := *env
 		n.st = env.old
+		n.fr = nil // the entry state knows parameters (their entry values) but no locals
 		return n.eval(x.X)
 	case *EUn:
 		v, err := env.eval(x.X)
@@ -354,6 +355,32 @@ func isPointer(t types.Type) bool {
 
 func (env *Env) evalIdent(name string) (*Val, error) {
 	e := env.e
+	if env.fr != nil {
+		// inside a function body (loop invariants, call-site assertions) a parameter that the body reassigns denotes its
+		// CURRENT value: the phi node carrying the variable's name; old(x) is the entry value
+		if _, isParam := env.vars[name]; isParam {
+			var found *Val
+			n := 0
+			for _, b := range env.fr.fn.Blocks {
+				for _, in := range b.Instrs {
+					if phi, ok := in.(*ssa.Phi); ok && phi.Comment == name {
+						if v, ok := env.fr.vals[phi]; ok {
+							found = v
+							n++
+						}
+					}
+				}
+			}
+			if n == 1 {
+				return found, nil
+			}
+			if n > 1 {
+				if v := env.lookupSSA(name); v != nil {
+					return v, nil
+				}
+			}
+		}
+	}
 	if v, ok := env.vars[name]; ok {
 		return v, nil
 	}
